@@ -52,7 +52,7 @@ _cp.CompositeConditionParser.get_class_conditions = _safe_gcc
 _LINE = re.compile(r"^(?P<file>[^:]+):(?P<line>\d+): (?P<kind>error|info|warning): (?P<msg>.*)$")
 
 
-def run_module(source: str, name: str, per_condition_timeout: int, wall_timeout: int = None, extra_env=None):
+def run_module(source: str, name: str, per_condition_timeout: int, wall_timeout: int = None, extra_env=None, only: str = None):
     """Write `source` to scratch/<name>.py and run `crosshair check --report_all` on it.
     Returns dict: {function_name: {"verdict": confirmed|counterexample|not_confirmed|no_precondition|error|timeout, "message": str}}, cpu seconds."""
     os.makedirs(SCRATCH, exist_ok=True)
@@ -70,8 +70,12 @@ def run_module(source: str, name: str, per_condition_timeout: int, wall_timeout:
     env.update(extra_env or {})
     env["PYTHONDONTWRITEBYTECODE"] = "1"
     env["PYTHONWARNINGS"] = "ignore"
+    target = path
+    if only is not None:
+        funcs = {only: funcs[only]}
+        target = f"{path}:{funcs[only][0] + 1}"
     cmd = [sys.executable, "-W", "ignore", "-m", "crosshair", "check", "--report_all",
-           "--per_condition_timeout", str(per_condition_timeout), path]
+           "--per_condition_timeout", str(per_condition_timeout), target]
     t = time.time()
     out = {fn: {"verdict": "timeout", "message": ""} for fn in funcs}
     try:
